@@ -357,6 +357,195 @@ def abstract_sweep(ctx, n) -> Dict[str, Any]:
     return {"abstract_sets": n, "distinct": len({json.dumps(m) for m in mcases}), "coherent": acc}
 
 
+# ---------------------------------------------------------------------------- large containers
+
+BIG_CHUNKS = [1 << b for b in range(12, 21)]
+
+
+def big_apply(P: bytes, m: Dict[str, Any]) -> bytes:
+    """Structural tampering of a payload with material copied from the payload itself."""
+    op = m["op"]
+    if op == "append":
+        return P + P[m["a"]:m["b"]]
+    if op == "append_zero":
+        return P + bytes(m["n"])
+    if op == "insert":
+        return P[:m["at"]] + P[m["a"]:m["b"]] + P[m["at"]:]
+    if op == "replace":
+        n = m["b"] - m["a"]
+        return P[:m["at"]] + P[m["a"]:m["b"]] + P[m["at"] + n:]
+    if op == "trunc":
+        return P[:m["to"]]
+    if op == "delete":
+        return P[:m["a"]] + P[m["b"]:]
+    if op == "swap":
+        a, b, n = m["a"], m["b"], m["n"]
+        return P[:a] + P[b:b + n] + P[a + n:b] + P[a:a + n] + P[b + n:]
+    raise ValueError(op)
+
+
+def big_mutations(L: int, rng) -> List[Dict[str, Any]]:
+    """Chunk-aligned mutations of a payload of L bytes for chunk sizes 2^12 .. 2^20."""
+    out: List[Dict[str, Any]] = []
+    for c in BIG_CHUNKS:
+        k, r = divmod(L, c)
+        if k < 1:
+            continue
+        out.append({"op": "trunc", "to": k * c, "c": c})
+        if k >= 2:
+            out.append({"op": "trunc", "to": (k - 1) * c, "c": c})
+        out.append({"op": "append", "a": (k - 1) * c, "b": k * c, "c": c})          # duplicate last full chunk
+        out.append({"op": "append", "a": 0, "b": c, "c": c})                        # first chunk again
+        if r:
+            out.append({"op": "append", "a": (k - 1) * c + r, "b": k * c, "c": c})  # previous chunk's tail: pads to a multiple
+            out.append({"op": "append", "a": r, "b": c, "c": c})                    # first chunk's tail: pads to a multiple
+            out.append({"op": "append", "a": k * c, "b": L, "c": c})                # duplicate last partial chunk
+            out.append({"op": "append_zero", "n": c - r, "c": c})                   # zero padding to a multiple
+            out.append({"op": "insert", "at": k * c, "a": (k - 1) * c + r, "b": k * c, "c": c})
+            out.append({"op": "insert", "at": k * c, "a": k * c, "b": L, "c": c})
+            out.append({"op": "replace", "at": k * c, "a": (k - 1) * c, "b": (k - 1) * c + r, "c": c})
+            out.append({"op": "delete", "a": k * c, "b": L - 1, "c": c})
+        i = rng.randrange(k)
+        out.append({"op": "delete", "a": i * c, "b": (i + 1) * c, "c": c})
+        out.append({"op": "insert", "at": i * c, "a": i * c, "b": (i + 1) * c, "c": c})
+        if k >= 2:
+            i, j = sorted(rng.sample(range(k), 2))
+            out.append({"op": "swap", "a": i * c, "b": j * c, "n": c, "c": c})
+            out.append({"op": "replace", "at": j * c, "a": i * c, "b": (i + 1) * c, "c": c})
+    return out
+
+
+def _big_build(spec, d: Path) -> List[Path]:
+    import random as _random
+    import numpy as np
+    from metador_core.ih5.container import IH5Record
+    g = _random.Random(spec["seed"])
+    rec = IH5Record(d / "big", "w")
+    for i, n in enumerate(spec["sizes"]):
+        if i > 0:
+            rec.commit_patch()
+            rec.create_patch()
+        rec[f"d{i}"] = np.frombuffer(g.randbytes(n), dtype="uint8")
+    files = [Path(p) for p in rec.ih5_files]
+    rec.close(commit=True)
+    return files
+
+
+def big_eval(spec, muts) -> Dict[str, Any]:
+    """Build the large record, compare stored digests with hashlib, open every tampered variant."""
+    import hashlib
+    with vlib.workdir("c04big") as d:
+        files = _big_build(spec, d)
+        datas = [p.read_bytes() for p in files]
+        lo = reclib.UB_SIZE
+        digests = []
+        for dt in datas:
+            stored = reclib.parse_ublock(dt)["ub"]["hash"]
+            digests.append([stored, "sha256:" + hashlib.sha256(dt[lo:]).hexdigest(), len(dt) - lo])
+        base = reclib.open_real("IH5Record", files, False)
+        res = []
+        for m in muts:
+            fi = m["file"]
+            P = datas[fi][lo:]
+            Q = big_apply(P, m)
+            if Q == P:
+                res.append(["same"])
+                continue
+            files[fi].write_bytes(datas[fi][:lo] + Q)
+            try:
+                res.append(reclib.open_real("IH5Record", files, False)[:5])
+            finally:
+                files[fi].write_bytes(datas[fi])
+        return {"digests": digests, "baseline": base[:5], "res": res}
+
+
+def w_big(arg):
+    try:
+        return big_eval(*arg)
+    except BaseException as e:  # noqa: BLE001
+        import traceback
+        return {"harness_error": f"{type(e).__name__}: {e}"[:300], "tb": traceback.format_exc()[-1500:]}
+
+
+def big_sweep(ctx) -> Dict[str, Any]:
+    """Containers whose payload exceeds common hash-buffer sizes; tampering with slices of the file itself."""
+    rng = ctx.rng
+    specs = []
+    for _ in range(ctx.budget(1, 3)):
+        specs.append({"seed": rng.getrandbits(32),
+                      "sizes": [rng.randrange(int(1.2 * 2 ** 20), int(1.5 * 2 ** 20)),
+                                rng.randrange(int(2.1 * 2 ** 20), int(2.4 * 2 ** 20))]})
+    # payload length = dataset bytes + HDF5 overhead, only known after building: one probing build per spec
+    probes = vlib.pmap(w_big, [(sp, []) for sp in specs])
+    tasks = []
+    for sp, pr in zip(specs, probes):
+        if "harness_error" in pr:
+            raise RuntimeError(f"large-container fixture failed inside the harness: {pr}")
+        muts = []
+        for fi, (_, _, L) in enumerate(pr["digests"]):
+            muts += [dict(m, file=fi) for m in big_mutations(L, rng)]
+        nsplit = 6
+        for j in range(nsplit):
+            tasks.append((sp, muts[j::nsplit]))
+    results = vlib.pmap(w_big, tasks)
+    n = refused = same = 0
+    ops: Dict[str, int] = {}
+    bad_digest = None
+    bad_open: Dict[str, Any] = {}
+    for (sp, muts), r in zip(tasks, results):
+        if "harness_error" in r:
+            raise RuntimeError(f"large-container case failed inside the harness: {r}")
+        for fi, (stored, own, L) in enumerate(r["digests"]):
+            if stored != own and bad_digest is None:
+                bad_digest = {"spec": sp, "file": fi, "stored": stored, "hashlib": own, "payload_len": L}
+        if r["baseline"][0] != "ok" and "baseline" not in bad_open:
+            bad_open["baseline"] = {"spec": sp, "mut": None, "real": r["baseline"], "demanded": "accept"}
+        for m, x in zip(muts, r["res"]):
+            if x[0] == "same":
+                same += 1
+                continue
+            if x[0] == "timeout":
+                continue
+            n += 1
+            ops[m["op"]] = ops.get(m["op"], 0) + 1
+            if x[0] == "ok":
+                bad_open.setdefault(m["op"], {"spec": sp, "mut": m, "real": x, "demanded": "refuse"})
+            else:
+                refused += 1
+    if bad_digest is not None:
+        ctx.violation(f"hdf5_hashsum stored in the user block of a committed container with a {bad_digest['payload_len']} byte "
+                      f"payload is not the SHA-256 of the bytes after the user block (container {bad_digest['file']}): "
+                      "the stored digest does not cover exactly the payload",
+                      dict(bad_digest, kind="big", oracle="digest", mut=None),
+                      sig_obj={"kind": "big", "oracle": "digest"})
+    for key in sorted(bad_open)[:3]:
+        b = bad_open[key]
+        ctx.violation(f"IH5Record(files,'r') {'returned' if b['real'][0] == 'ok' else 'raised ' + str(b['real'][1:3])} on a large "
+                      f"record whose committed container was {'not changed' if b['mut'] is None else 'tampered: ' + json.dumps(b['mut'])}",
+                      dict(b, kind="big", oracle="open", klass="payload:committed"),
+                      sig_obj={"kind": "big", "oracle": "open", "op": key})
+    return {"records": len(specs), "payload_bytes": [[d[2] for d in p["digests"]] for p in probes],
+            "chunk_sizes": BIG_CHUNKS, "tampered_variants_opened": n, "refused": refused,
+            "identical_to_original_skipped": same, "by_op": dict(sorted(ops.items())),
+            "stored_digests_recomputed_with_hashlib": sum(len(p["digests"]) for p in probes)}
+
+
+def replay_big(rep) -> int:
+    sp, m = rep["spec"], rep.get("mut")
+    r = big_eval(sp, [m] if m else [])
+    bad = False
+    for fi, (stored, own, L) in enumerate(r["digests"]):
+        print(f"container {fi}: payload {L} bytes, stored {stored}, hashlib {own}")
+        bad |= stored != own
+    print("baseline open:", r["baseline"][:3])
+    bad |= r["baseline"][0] != "ok"
+    if m:
+        print("mutation:", m, "->", r["res"][0][:4])
+        bad |= r["res"][0][0] == "ok"
+    print("still failing" if bad else "no longer failing")
+    return 1 if bad else 0
+
+
 # ---------------------------------------------------------------------------- main
 
 def _hist(it):
@@ -407,6 +596,9 @@ def run(ctx: vlib.Ctx):
                  f"model+analysis {time.time() - t2:.1f}s")
     cov.update(stats)
     cov["oracle_vs_model_abstract_sweep"] = abstract_sweep(ctx, ctx.budget(20000, 200000))
+    tb = time.time()
+    cov["large_container_sweep"] = big_sweep(ctx)
+    vlib.log(f"c04: large-container sweep {time.time() - tb:.1f}s")
     ctx.assumptions += [
         "digests are collision-free on the compared payloads and manifests (Section hypotheses H_inj / Hm_inj)",
         "the newest container may be uncommitted; its payload is then not protected (property speaks of committed payloads)",
@@ -609,6 +801,8 @@ def analyse(ctx, cases, results, fams) -> Dict[str, Any]:
 def replay(rep) -> int:
     """Re-open the recorded (already mutated) file set with the current code."""
     vlib._pool_init()
+    if rep.get("kind") == "big":
+        return replay_big(rep)
     if rep.get("kind") != "open":
         print("replay names a proof obligation or correspondence; re-run the check itself")
         return 1
